@@ -221,6 +221,13 @@ func cmdVerify(mode string, argv []string) {
 		}
 		r := runHarness(P, h, opt)
 		printResult(r, *verbose)
+		if *keep != "" && r.E != nil {
+			for _, o := range r.Obls {
+				if !oblOK(o) && !o.Cover && o.Query != "" {
+					os.WriteFile(strings.TrimSuffix(o.Query, ".smt2")+".qf.smt2", []byte(r.E.buildQueryLevel(o, 4)), 0o644)
+				}
+			}
+		}
 		if r.Err != "" {
 			bad++
 		}
